@@ -2,7 +2,7 @@
    obeys the constructor contract, the guard-first contract and the parameters-are-never-reassigned
    contract, except for the committed, explicitly listed known deviations (Known.v). *)
 From Coq Require Import List String Bool.
-Require Import SkV.C04.Table SkV.C04.Known SkV.C04.Gen.
+Require Import SkV.C04.Model SkV.C04.Table SkV.C04.Known SkV.C04.Gen.
 Import ListNotations.
 Open Scope string_scope.
 
@@ -96,8 +96,46 @@ Proof.
   cbn in H. apply mem2_In. exact H.
 Qed.
 
+(* fit (own or inherited) of every class returns self on every completing path and has executed
+   `self._is_fitted = True` as its last act, except the (owner, returns, flag) triples of
+   fit_exceptions *)
+Theorem all_fits_return_self_and_set_flag_or_known :
+  forall row, In row class_table -> fit_ok_or_known fit_exceptions row = true.
+Proof. apply forallb_forall. vm_compute. reflexivity. Qed.
+
+Theorem fit_contract_or_known : forall row o ret flag early,
+  In row class_table -> r_fit row = FF o ret flag early ->
+  early = false /\
+  ((ret = "self" /\ flag = "set") \/ In (o, ret, flag) fit_exceptions).
+Proof.
+  intros row o ret flag early Hin Hf. pose proof (all_fits_return_self_and_set_flag_or_known row Hin) as H.
+  unfold fit_ok_or_known in H. rewrite Hf in H. apply orb_true_iff in H. destruct H as [H|H].
+  - rewrite !andb_true_iff, negb_true_iff in H. destruct H as [[H1 H2] H3].
+    apply String.eqb_eq in H1, H2. auto.
+  - rewrite andb_true_iff, negb_true_iff in H. destruct H as [H1 H2]. split; [exact H2|]. right.
+    unfold mem3 in H1. apply existsb_exists in H1. destruct H1 as [[[a b] c] [Hin3 H3]].
+    rewrite !andb_true_iff in H3. destruct H3 as [[Ha Hb] Hc]. unfold str_eqb in *.
+    apply String.eqb_eq in Ha, Hb, Hc. now subst.
+Qed.
+
+(* the fitted-state model (Model.v step) is the one of sktime/base/_base.py as regenerated on this
+   run: a fresh object carries the flag BaseEstimator.__init__ stores, is_fitted returns that flag,
+   and an apply-type method of the model raises NotFitted exactly when check_is_fitted raises, which
+   is sktime.exceptions.NotFittedError *)
+Theorem base_class_facts_match_model :
+  (forall e, base_init_flag = Some (o_fitted (fresh e))) /\
+  base_is_fitted_reads_flag = true /\
+  (forall o m, snd (step o (EApply m)) = NotFitted <-> base_guard_raises (o_fitted o) = true) /\
+  (forall o m, snd (step o (EApply m)) = Result <-> base_guard_raises (o_fitted o) = false) /\
+  base_guard_exception = "sktime.exceptions.NotFittedError".
+Proof.
+  split; [reflexivity|]. split; [reflexivity|]. split; [|split; [|reflexivity]].
+  - intros o m. cbn. destruct (o_fitted o); cbn; split; congruence.
+  - intros o m. cbn. destruct (o_fitted o); cbn; split; congruence.
+Qed.
+
 (* the table is not empty and the exception lists are not what makes the theorems true for the
    bulk of the table: most rows pass with NO exception at all (counts are evaluated, not assumed) *)
 Definition n_rows := List.length class_table.
 Definition n_rows_clean :=
-  List.length (filter (fun r => stores_ok class_table r && guarded_ok r && params_stable_ok r) class_table).
+  List.length (filter (fun r => stores_ok class_table r && guarded_ok r && params_stable_ok r && fit_ok r) class_table).
